@@ -26,6 +26,25 @@ def gen_case(seed, i, engine):
     return core.Case("backend", lines, {"engine": engine, "sub": sub})
 
 
+def wrap_case(seed, i, engine):
+    """a SMALL event cache that has wrapped around (more events than slots, not a multiple of the slot count), a List, further
+    writes, and only then the watch from the List's revision + 1: the catch-up comes out of the OLDER part of the wrapped ring"""
+    r = rng_for(seed, "c06w/%d" % i)
+    cap = r.randint(5, 12)
+    keys = r.sample(KEY_POOL, r.randint(3, 6))
+    sh = hist.Shadow()
+    a, b = PREFIX + b"/", PREFIX + b"0"
+    lines = [hist.cfg_line(engine, cache=cap)]
+    lines += hist.gen_writes(r, sh, cap + r.randint(1, cap - 1), keys, p_ok=1.0)
+    lines += ["rev", "echo base", "list %s %s 0 0" % (hx(a), hx(b))]
+    R = sh.dealt
+    lines += hist.gen_writes(r, sh, r.randint(1, cap - 2), keys, p_ok=1.0)
+    lines += ["rev", "watch w1 %s %d" % (hx(a), R + 1)]
+    lines += hist.gen_writes(r, sh, r.randint(0, 3), keys, p_ok=1.0)
+    lines += ["rev", "drain w1", "echo later", "list %s %s 0 0" % (hx(a), hx(b))]
+    return core.Case("backend", lines, {"engine": engine, "sub": a, "wrap": cap})
+
+
 def future_case(seed, i, engine):
     """a range read at an explicit revision R ABOVE the committed one - R is the header of an acknowledged write while a
     write with a smaller revision is still on its way to the engine (parked at its commit) - then a watch from R+1, the
@@ -107,6 +126,7 @@ def check(rep, tier, seed):
     n = 36 if tier == "quick" else 6000
     cases = [gen_case(seed, i, ENGINES[i % 3]) for i in range(n)]
     cases += [future_case(seed, i, ENGINES[i % 3]) for i in range(3 if tier == "quick" else 60)]
+    cases += [wrap_case(seed, i, ENGINES[i % 3]) for i in range(9 if tier == "quick" else 300)]
     core.run_cases(cases)
     if core.judge(rep, "C06", cases, oracle):
         return
